@@ -74,9 +74,11 @@ CHECKS = {
  "C12": dict(
     text="Proof: for every kernel tree over legal names (any nesting, strands, empty loops) the reader's resolve_kernel_loops "
          "applied to the token list of the tree returns exactly the tree's (sequence, structure) with the closing domains "
-         "synthesised as complements, and kernel_string writes exactly the tree's token texts (induction on trees, no bound). "
-         "Partial: that every well-formed domain-level-complementary complex is such a tree, and that the PEG parser returns "
-         "the tree's token list on its rendering, are not proved; the complete chain kernel_string -> Gallina PEG parse of the "
+         "synthesised as complements, and kernel_string writes exactly the tree's token texts (induction on trees, no bound); "
+         "every aligned, well-formed, domain-level-complementary (sequence, structure) with non-empty strands is the flattening "
+         "of such a tree and conversely (both missing guards refuted with witnesses); and the whole chain kernel_string -> "
+         "PEG parse of the regenerated grammar -> resolve_kernel_loops returns exactly (sequence, structure) for all names over "
+         "the identifier alphabet, for every sufficiently large parser fuel. Partial: sufficiency of the default fuel. The complete chain kernel_string -> Gallina PEG parse of the "
          "regenerated grammar -> resolve_kernel_loops is run against the implementation's chain on all structures up to a "
          "length bound and random deep ones, and the object-level round trip (every rotation, identical singleton) is "
          "executed on the implementation.",
